@@ -31,7 +31,8 @@ ASSUMPTIONS = ['capability margins within 1e-9 dB of zero and NF ties (1e-9 dB) 
                'stage); OpenROADM models (NF depends on input power) only for membership and capability',
                'multiband auto-selection is exercised by dedicated cases (listed known finding)']
 REQUIRED_COUNTERS = {'selections': 200, 'permitted_set_checks': 200, 'capability_checks': 200, 'nf_optimality_checks': 150,
-                     'restricted_by_roadm': 10, 'restricted_by_variety_list': 10, 'raman_rule_checks': 5}
+                     'restricted_by_roadm': 10, 'restricted_by_variety_list': 10, 'raman_rule_checks': 5,
+                     'selections_after_library_edit': 30}
 CASE_TIMEOUT = {'quick': 200, 'thorough': 400}
 
 _CALLS = []
@@ -126,14 +127,47 @@ def build_inputs(rng, kind):
                                      'booster_variety_list': r.sample(names, min(len(names), r.randint(0, 3)))}}
         return {}
     tj, _ = G.gen_topology(rng, max_sites=4, max_spans=3, roadm_params=rp, max_km=140, user_amps=True,
-                           amp_varieties=names[:6] or None)
+                           amp_varieties=names[:6] or None, per_freq_loss=rng.random() < 0.4)
     # make sure some ROADM-adjacent amplifiers are left to auto design, and short spans exist
     for e in tj['elements']:
         if e['type'] == 'Fiber' and rng.random() < 0.15:
             e['params']['length'] = G.pick(rng, [0.5, 3.0, 12.0, 25.0])
-        if e['type'] == 'Fiber' and rng.random() < 0.2:
+        if e['type'] == 'Fiber' and rng.random() < 0.2 and not isinstance(e['params']['loss_coef'], dict):
             e['params']['loss_coef'] = G.pick(rng, [0.26, 0.3])      # above the Raman loss limit
+        elif e['type'] == 'Fiber' and isinstance(e['params']['loss_coef'], dict) and rng.random() < 0.5:
+            # per-frequency loss straddling the Raman loss limit: above it somewhere, below it around the reference
+            t = e['params']['loss_coef']
+            order = sorted(range(len(t['frequency'])), key=lambda i: t['frequency'][i])
+            for i, v in zip(order, G.pick(rng, [[0.30, 0.22, 0.20, 0.21], [0.24, 0.21, 0.2, 0.27], [0.2, 0.2, 0.21, 0.26]])):
+                t['value'][i] = v
     return ej, tj
+
+
+def perturbed_library(rng, ej):
+    """Another library with the same model names: noise figures of the variable / fixed gain models moved by up to
+    2 dB (kept acceptable to the loader), so that the quietest capable model is often another one."""
+    from gnpy.core.science_utils import estimate_nf_model
+    from gnpy.core.exceptions import EquipmentConfigError
+    ej2 = deepcopy(ej)
+    n = 0
+    for e in ej2['Edfa']:
+        if not e['type_variety'].startswith('syn'):
+            continue
+        if e.get('type_def') == 'variable_gain' and 'nf_min' in e:
+            for _ in range(20):
+                d = G.rnd(rng, -2, 2, 2)
+                try:
+                    estimate_nf_model(e['type_variety'], e['gain_min'], e['gain_flatmax'], round(e['nf_min'] + d, 2),
+                                      round(e['nf_max'] + d, 2))
+                except EquipmentConfigError:
+                    continue
+                e['nf_min'], e['nf_max'] = round(e['nf_min'] + d, 2), round(e['nf_max'] + d, 2)
+                n += 1
+                break
+        elif e.get('type_def') == 'fixed_gain' and 'nf0' in e and e['nf0'] > 0:
+            e['nf0'] = round(max(3.5, e['nf0'] + G.rnd(rng, -2, 2, 2)), 2)
+            n += 1
+    return ej2 if n else None
 
 
 def lib_entries(ej):
@@ -409,5 +443,31 @@ def run_case(case, ctx):
         elif rec['variety_before'] == '' and not isinstance(rec['node'], Multiband_amplifier):
             ctx.violation('no-selection', f'{rec["node"].uid}: amplifier without model was designed without selection')
     ctx.cls(f'kind:{case["kind"]}')
+    if not ctx.violations and rng.random() < 0.35:
+        # history: the loaded library is edited in place (a what-if study in one process: every Amp object of the
+        # library takes the values of another data sheet) and a fresh copy of the topology is designed with it.
+        # Whatever the selection remembers from the first design must not survive the edit.
+        ej2 = perturbed_library(rng, ej)
+        if ej2 is not None:
+            eq2 = G.make_equipment(ej2)
+            for name, amp in equipment['Edfa'].items():
+                vars(amp).clear()
+                vars(amp).update(vars(eq2['Edfa'][name]))
+            network2 = G.make_network(tj, equipment)
+            SimParams.set_params({})
+            _CALLS.clear()
+            _stack.clear()
+            ctx.dump['equipment_edfa_after_edit'] = ej2['Edfa']
+            try:
+                G.design(equipment, network2)
+            except ConfigurationError as e:
+                if 'could not find any amplifier' not in str(e) and 'min gain' not in str(e):
+                    raise
+            for rec in list(_CALLS):
+                if rec['select'] is not None:
+                    ctx.count('selections_after_library_edit')
+                    judge(ctx, ej2, tj, rec)
+                    if ctx.violations:
+                        return
     if not ctx.violations:
         ctx.dump.clear()
